@@ -259,6 +259,9 @@ class Pipeline(object):
             self._producer.stop()
             self._kill_workers()
 
+            # Wake process() if it is paused (concurrency 0) with no workers.
+            self._unpaused_event.set()
+
     @asyncio.coroutine
     def _run_producer_wrapper(self):
         '''Run the producer, if exception, stop engine.'''
